@@ -10,7 +10,7 @@ use std::collections::BTreeMap;
 
 /// Tag classes with respect to the filter's parent -> child ("back") edge.
 #[derive(Clone, Copy, PartialEq, Eq, Debug)]
-enum Class {
+pub(super) enum Class {
     /// namespace: structural, its children are never pulled in by it
     N,
     /// standalone entity (type, subprogram definition): only kept when required or referenced
@@ -26,7 +26,7 @@ const TAG_LABEL: u64 = 0x0a;
 
 /// (tag, is_declaration) for class `c` at entry number `k` (rotates through the class's tags
 /// so that all ten tags of the property's quantifier occur).
-fn tag_for(c: Class, k: usize, rot: usize) -> (u64, bool) {
+pub(super) fn tag_for(c: Class, k: usize, rot: usize) -> (u64, bool) {
     let k = k + rot;
     match c {
         Class::N => (TAG_NAMESPACE, false),
@@ -37,7 +37,7 @@ fn tag_for(c: Class, k: usize, rot: usize) -> (u64, bool) {
 }
 
 #[derive(Clone, Copy, PartialEq, Eq, Debug)]
-enum Carrier {
+pub(super) enum Carrier {
     None,
     AttrRef4,
     AttrRefAddr,
@@ -101,34 +101,52 @@ const CARRIERS: [Carrier; 12] = [
     Carrier::CycleRefAddrExpr,
 ];
 
-struct Case {
-    cfg: Cfg,
-    n: usize,
+pub(super) struct Case {
+    pub cfg: Cfg,
+    pub n: usize,
     /// parent of entry k (1..=n); 0 = the root of its unit
-    parent: Vec<usize>,
-    class: Vec<Class>,
+    pub parent: Vec<usize>,
+    pub class: Vec<Class>,
     /// unit of entry k
-    unit_of: Vec<usize>,
-    nunits: usize,
-    carrier: Carrier,
-    src: usize,
-    dst: usize,
+    pub unit_of: Vec<usize>,
+    pub nunits: usize,
+    pub carrier: Carrier,
+    pub src: usize,
+    pub dst: usize,
     /// optional second, independent reference (carrier, source, target)
-    second: Option<(Carrier, usize, usize)>,
+    pub second: Option<(Carrier, usize, usize)>,
     /// valid reference edges (src entry, dst entry); dst 0 = a unit root
-    edges: Vec<(usize, usize)>,
+    pub edges: Vec<(usize, usize)>,
     /// entries carrying a reference that does not designate an entry
-    invalid_src: Vec<usize>,
+    pub invalid_src: Vec<usize>,
     /// rotation of the tag lists, so that every tag occurs at every position
-    rot: usize,
+    pub rot: usize,
 }
 
-fn name_of(k: usize) -> String {
+/// The code under test and the reader-side views of one case, so that the oracle below serves
+/// both the ordinary filter (`convert_with_filter`) and the split-unit filter
+/// (`convert_split_with_filter`, conv/split.rs).
+pub(super) struct Backend<'x> {
+    /// VIOLATION key entry
+    pub entry: &'x str,
+    /// route name shown in the rendered case
+    pub api: &'x str,
+    /// prefix of the outcome classes
+    pub tag: &'x str,
+    /// entries + carrier + input sections
+    pub rendered: String,
+    /// by-name dump of the input
+    pub input: Result<DwarfD, String>,
+    pub unfiltered: &'x dyn Fn() -> Result<ConvOut, mcx::Panic>,
+    pub filtered: &'x dyn Fn(&[String]) -> Result<ConvOut, mcx::Panic>,
+}
+
+pub(super) fn name_of(k: usize) -> String {
     format!("e{}", k)
 }
 
 /// Build the model; None when the carrier cannot express this (src, dst) pair.
-fn build_case(c: &mut Case) -> Option<Model> {
+pub(super) fn build_case(c: &mut Case) -> Option<Model> {
     let cfg = c.cfg;
     let mut units: Vec<UnitM> = (0..c.nunits)
         .map(|u| {
@@ -392,7 +410,7 @@ fn entry_map(d: &DwarfD) -> BTreeMap<String, (String, String, Vec<String>)> {
     m
 }
 
-fn dump_by_name(secs: &Secs, big: bool) -> Result<DwarfD, String> {
+pub(super) fn dump_by_name(secs: &Secs, big: bool) -> Result<DwarfD, String> {
     match mcx::guard(|| {
         let d = dump::load(secs, big);
         dump::dump_dwarf(&d, RefNaming::ByName)
@@ -402,9 +420,13 @@ fn dump_by_name(secs: &Secs, big: bool) -> Result<DwarfD, String> {
     }
 }
 
-fn render_case(c: &Case, b: &Built) -> String {
+pub(super) fn render_entries(c: &Case) -> String {
     let ents: Vec<String> = (1..=c.n).map(|k| format!("e{}(parent={}, class={:?}, tag={:#x}{}, unit={})", k, if c.parent[k] == 0 { "root".to_string() } else { name_of(c.parent[k]) }, c.class[k], tag_for(c.class[k], k, c.rot).0, if tag_for(c.class[k], k, c.rot).1 { " declaration" } else { "" }, c.unit_of[k])).collect();
-    format!("{} entries [{}] carrier {:?} from {} to {}{} sections: {}", c.cfg.name(), ents.join(", "), c.carrier, if c.src == 0 { "the root of unit 0".to_string() } else { name_of(c.src) }, if c.dst == 0 { "unit root".to_string() } else { name_of(c.dst) }, match c.second { Some((k, s2, d2)) => format!(" and {:?} from e{} to {}", k, s2, if d2 == 0 { "unit root".to_string() } else { name_of(d2) }), None => String::new() }, render_secs(&b.secs))
+    format!("{} entries [{}] carrier {:?} from {} to {}{}", c.cfg.name(), ents.join(", "), c.carrier, if c.src == 0 { "the root of unit 0".to_string() } else { name_of(c.src) }, if c.dst == 0 { "unit root".to_string() } else { name_of(c.dst) }, match c.second { Some((k, s2, d2)) => format!(" and {:?} from e{} to {}", k, s2, if d2 == 0 { "unit root".to_string() } else { name_of(d2) }), None => String::new() })
+}
+
+fn render_case(c: &Case, b: &Built) -> String {
+    format!("{} sections: {}", render_entries(c), render_secs(&b.secs))
 }
 
 fn check_case(ctx: &mut Ctx, c: &mut Case, stepwise: bool) {
@@ -415,27 +437,42 @@ fn check_case(ctx: &mut Ctx, c: &mut Case, stepwise: bool) {
     ctx.nontriv(1);
     let b = build(&model);
     let big = c.cfg.big;
-    let case = |req: u32| format!("{} required {{{}}} api={}", render_case(c, &b), names(req, c.n).join(","), if stepwise { "stepwise" } else { "ConvertUnit::convert" });
+    let be = Backend {
+        entry: if stepwise { "convert_with_filter+stepwise" } else { "convert_with_filter+ConvertUnit::convert" },
+        api: if stepwise { "stepwise" } else { "ConvertUnit::convert" },
+        tag: "c19",
+        rendered: render_case(c, &b),
+        input: dump_by_name(&b.secs, big),
+        unfiltered: &|| run::convert(&b.secs, big, if stepwise { run::Api::StepSeq } else { run::Api::From }),
+        filtered: &|required: &[String]| run::convert_filtered(&b.secs, big, required, stepwise),
+    };
+    check_with(ctx, c, &be);
+}
+
+pub(super) fn check_with(ctx: &mut Ctx, c: &Case, be: &Backend) {
+    let big = c.cfg.big;
+    let tag = be.tag;
+    let case = |req: u32| format!("{} required {{{}}} api={}", be.rendered, names(req, c.n).join(","), be.api);
     if ctx.want_sample() {
         ctx.sample(case(1 << 1));
     }
-    let entry = if stepwise { "convert_with_filter+stepwise" } else { "convert_with_filter+ConvertUnit::convert" };
+    let entry = be.entry;
     // generator-side trigger tag (see c12::check_dwarf): a recorded finding only covers inputs with it
     let root_src = c.src == 0 && c.carrier != Carrier::None || matches!(c.second, Some((_, 0, _)));
     let more = is_more(c.carrier);
     let carrier_tag = format!("{:?}", c.carrier);
     let fk = |k: &str| if root_src { format!("{}[reference-from-unit-root]", k) } else if more { format!("{}[{}]", k, carrier_tag) } else { k.to_string() };
-    let din = match dump_by_name(&b.secs, big) {
+    let din = match &be.input {
         Ok(d) => d,
         Err(e) => {
-            ctx.machinery(format!("generated C19 input is not readable: {} ({})", e, render_case(c, &b)));
+            ctx.machinery(format!("generated C19 input is not readable: {} ({})", e, be.rendered));
             return;
         }
     };
-    let in_map = entry_map(&din);
+    let in_map = entry_map(din);
     // unfiltered conversion (same route), the reference for attribute equality
     ctx.eval(1);
-    let unfiltered: Result<BTreeMap<String, (String, String, Vec<String>)>, String> = match run::convert(&b.secs, big, if stepwise { run::Api::StepSeq } else { run::Api::From }) {
+    let unfiltered: Result<BTreeMap<String, (String, String, Vec<String>)>, String> = match (be.unfiltered)() {
         Ok(ConvOut::Ok(s)) => dump_by_name(&s, big).map(|d| entry_map(&d)),
         Ok(ConvOut::ConvErr(e)) | Ok(ConvOut::WriteErr(e)) => Err(run::err_class(&e)),
         Err(p) => {
@@ -443,7 +480,7 @@ fn check_case(ctx: &mut Ctx, c: &mut Case, stepwise: bool) {
             Err("panic".into())
         }
     };
-    ctx.outcome(if unfiltered.is_ok() { "c19:unfiltered-ok" } else { "c19:unfiltered-err" });
+    ctx.outcome(&format!("{}:{}", tag, if unfiltered.is_ok() { "unfiltered-ok" } else { "unfiltered-err" }));
     let reference = unfiltered.as_ref().unwrap_or(&in_map);
     for req in 0..(1u32 << c.n) {
         let req = req << 1; // bit k = entry k
@@ -459,10 +496,10 @@ fn check_case(ctx: &mut Ctx, c: &mut Case, stepwise: bool) {
         let unit0_retained = (1..=c.n).any(|k| lower & (1 << k) != 0 && c.unit_of[k] == 0);
         let dormant_root_targets: u32 = if unit0_retained { 0 } else { c.edges.iter().filter(|e| e.0 == 0 && e.1 != 0).fold(0, |a, e| a | (1 << e.1)) };
         let upper = if dormant_root_targets != 0 { closure(c, req | dormant_root_targets, true) } else { upper };
-        let out = match run::convert_filtered(&b.secs, big, &required, stepwise) {
+        let out = match (be.filtered)(&required) {
             Ok(o) => o,
             Err(p) => {
-                ctx.outcome("c19:panic");
+                ctx.outcome(&format!("{}:panic", tag));
                 ctx.fail_panic(entry, &p, case(req));
                 continue;
             }
@@ -484,23 +521,23 @@ fn check_case(ctx: &mut Ctx, c: &mut Case, stepwise: bool) {
                 let cls = run::err_class(&e);
                 let ref_err = cls == "InvalidUnitRef" || cls == "InvalidDebugInfoRef";
                 if invalid_in_lower && ref_err {
-                    ctx.outcome(&format!("c19:err-expected(invalid-reference-in-retained-entry):{}", cls));
+                    ctx.outcome(&format!("{}:err-expected(invalid-reference-in-retained-entry):{}", tag, cls));
                 } else if dormant_root_targets != 0 && ref_err {
-                    ctx.outcome("c19:err-allowed(reference-from-root-of-unit-without-retained-entries)");
+                    ctx.outcome(&format!("{}:err-allowed(reference-from-root-of-unit-without-retained-entries)", tag));
                 } else if invalid_in_upper && ref_err {
                     // the entry with the invalid reference is in the band U \ L: keeping it is allowed
-                    ctx.outcome(&format!("c19:err-allowed(invalid-reference-in-band-entry):{}", cls));
+                    ctx.outcome(&format!("{}:err-allowed(invalid-reference-in-band-entry):{}", tag, cls));
                 } else if !ref_err && unfiltered.as_ref().err() == Some(&cls) {
                     // the input cannot be converted at all for a reason unrelated to the filter
                     // (writer limitation, e.g. forward reference in an expression)
-                    ctx.outcome(&format!("c19:err-as-unfiltered:{}", cls));
+                    ctx.outcome(&format!("{}:err-as-unfiltered:{}", tag, cls));
                 } else {
                     ctx.fail(entry, "error-only-for-invalid-references", &fk(&format!("unexpected-error-{}", cls)), format!("{}\n  filtered conversion failed with {} although every reference of every entry that may be retained is valid (unfiltered conversion: {})", case(req), e, match &unfiltered { Ok(_) => "Ok".to_string(), Err(c) => format!("Err {}", c) }));
                 }
                 continue;
             }
         };
-        ctx.outcome("c19:ok");
+        ctx.outcome(&format!("{}:ok", tag));
         let dout = match dump_by_name(&osecs, big) {
             Ok(d) => d,
             Err(e) => {
@@ -549,7 +586,7 @@ fn check_case(ctx: &mut Ctx, c: &mut Case, stepwise: bool) {
         }
         if invalid_in_lower {
             // Ok although a retained entry carries a reference to no entry
-            ctx.outcome("c19:ok-with-invalid-reference-in-retained-entry");
+            ctx.outcome(&format!("{}:ok-with-invalid-reference-in-retained-entry", tag));
         }
         let mut bad = false;
         for (n, (parent, attrs, dangling)) in &out_map {
@@ -577,15 +614,15 @@ fn check_case(ctx: &mut Ctx, c: &mut Case, stepwise: bool) {
         // units: the rustdoc of `new_with_filter` says units with no reachable entries are skipped
         let empty_units = dout.units.iter().filter(|u| u.entries.len() <= 1).count();
         if empty_units > 0 && present != 0 {
-            ctx.outcome("c19:note:unit-without-retained-entries-is-emitted");
+            ctx.outcome(&format!("{}:note:unit-without-retained-entries-is-emitted", tag));
         }
         if lower == upper {
-            ctx.outcome("c19:exact-set-verified");
+            ctx.outcome(&format!("{}:exact-set-verified", tag));
         } else {
-            ctx.outcome("c19:set-within-band");
+            ctx.outcome(&format!("{}:set-within-band", tag));
         }
         if present.count_ones() as usize != c.n && present != 0 {
-            ctx.outcome("c19:proper-nonempty-subset-retained");
+            ctx.outcome(&format!("{}:proper-nonempty-subset-retained", tag));
         }
     }
 }
@@ -761,9 +798,14 @@ pub fn def(tier: Tier) -> CheckDef {
             "an error is accepted when a retained entry (member of L) carries a reference that designates no entry, or when the unfiltered conversion of the same input fails too (writer limitation: UnsupportedExpressionForwardReference); a write error InvalidReference is never accepted".into(),
             "sibling order is not compared (the property does not define it; base types are moved first by design)".into(),
             "the root entry of a unit without retained entries is still emitted (the rustdoc of new_with_filter says such units are skipped): counted as outcome 'c19:note:unit-without-retained-entries-is-emitted', not treated as a violation because the property speaks about entries selected by the filter, and roots are not subject to it".into(),
-            "split-unit filters (convert_split_with_filter) are not covered".into(),
-        ],
-        subs,
+        ]
+        .into_iter()
+        .chain(super::split::assumptions_c19())
+        .collect(),
+        subs: {
+            subs.extend(super::split::subs_c19(tier));
+            subs
+        },
         required_outcomes: vec![
             "c19:ok".into(),
             "c19:exact-set-verified".into(),
@@ -780,6 +822,9 @@ pub fn def(tier: Tier) -> CheckDef {
             "c19:carrier:LocListDefault".into(),
             "c19:carrier:LocListTombstone".into(),
             "c19:carrier:AttrRefAddrOtherUnitRoot".into(),
-        ],
+        ]
+        .into_iter()
+        .chain(super::split::required_c19())
+        .collect(),
     }
 }
